@@ -36,6 +36,8 @@ import (
 	"time"
 )
 
+var maxMinimise = func() int { n, _ := strconv.Atoi(envOr("HAPSIM_MAXMIN", "3")); return n }()
+
 var (
 	verifDir = envOr("HAPSIM_VERIF", "/verif")
 	repoDir  = envOr("HAPSIM_REPO", "/repo")
@@ -362,12 +364,27 @@ func runSim(binDir string, env map[string]string, timeout time.Duration) ([]*Res
 // known findings
 
 type Finding struct {
-	Property    string `json:"property"`
-	Status      string `json:"status"` // open | fixed
-	Class       string `json:"class"`  // prefix of the violation class
-	Match       string `json:"match"`  // regexp over the witness ("" = any)
+	ID         string   `json:"id"`
+	Properties []string `json:"properties"`
+	Status     string   `json:"status"` // open | fixed
+	// Replay is the committed history that demonstrates the finding (relative to /verif).
+	Replay string `json:"replay,omitempty"`
+	// Avoid is the generator constraint that keeps the exploration away from the
+	// finding's trigger, so that other violations of the property are still found.
+	Avoid       string `json:"avoid,omitempty"`
+	Class       string `json:"class,omitempty"` // prefix of the violation class
+	Match       string `json:"match,omitempty"` // regexp over the witness ("" = any)
 	Description string `json:"description"`
 	Commit      string `json:"commit,omitempty"`
+}
+
+func (f *Finding) appliesTo(prop string) bool {
+	for _, p := range f.Properties {
+		if p == prop {
+			return true
+		}
+	}
+	return false
 }
 
 func loadFindings() []Finding {
@@ -387,7 +404,7 @@ func loadFindings() []Finding {
 func matchFinding(fs []Finding, v *Violation) *Finding {
 	for i := range fs {
 		f := &fs[i]
-		if f.Status != "open" || f.Property != v.Property {
+		if f.Status != "open" || !f.appliesTo(v.Property) || (f.Class == "" && f.Match == "") {
 			continue
 		}
 		if f.Class != "" && !strings.HasPrefix(v.Class, f.Class) {
@@ -461,6 +478,50 @@ func cmdCheck(args []string) {
 	binDir := prepare(false)
 	buildS := time.Since(start).Seconds()
 	base := propSeedBase(seed, prop)
+	findings := loadFindings()
+	var avoid []string
+	for _, f := range findings {
+		if f.Status == "open" && f.Avoid != "" && f.appliesTo(prop) {
+			avoid = append(avoid, f.Avoid)
+		}
+	}
+	sort.Strings(avoid)
+	exit := 0
+	knownHit := map[string]int{}
+	var reported []map[string]any
+	// recorded findings first: every replay file tied to this property is re-run
+	for i := range findings {
+		f := &findings[i]
+		if !f.appliesTo(prop) || f.Replay == "" {
+			continue
+		}
+		data, err := os.ReadFile(filepath.Join(verifDir, f.Replay))
+		if err != nil {
+			trouble("finding %s: %v", f.ID, err)
+		}
+		var rf ReplayFile
+		if err := json.Unmarshal(data, &rf); err != nil {
+			trouble("finding %s: %v", f.ID, err)
+		}
+		res := replayResult(binDir, &rf, false)
+		if res.Verdict == "harness_error" {
+			trouble("finding %s: replay failed: %s", f.ID, tail(res.Error, 2000))
+		}
+		reproduces := len(res.Violations) > 0
+		switch {
+		case f.Status == "open" && reproduces:
+			fmt.Printf("KNOWN-FINDING: property=%s %s: %s (replay=%s)\n", prop, f.ID, f.Description, filepath.Join(verifDir, f.Replay))
+			knownHit[f.ID]++
+		case f.Status == "open":
+			fmt.Printf("hapsim: note: recorded finding %s no longer reproduces on this tree\n", f.ID)
+		case reproduces:
+			v := res.Violations[0]
+			fmt.Printf("VIOLATION property=%s replay=%s\n  regression of fixed finding %s (%s)\n  class: %s\n  %s\n", prop, filepath.Join(verifDir, f.Replay), f.ID, f.Commit,
+				v.Class, strings.ReplaceAll(v.Witness, "\n", "\n  "))
+			reported = append(reported, map[string]any{"class": v.Class, "regression_of": f.ID, "replay": f.Replay, "witness": v.Witness})
+			exit = 1
+		}
+	}
 
 	// fan out: chunks of seeds, pulled by worker processes
 	chunk := 25
@@ -493,7 +554,7 @@ func cmdCheck(args []string) {
 				if time.Now().After(deadline) {
 					return
 				}
-				env := map[string]string{"HAPSIM_PROP": prop, "HAPSIM_TIER": *tier,
+				env := map[string]string{"HAPSIM_PROP": prop, "HAPSIM_TIER": *tier, "HAPSIM_AVOID": strings.Join(avoid, ","),
 					"HAPSIM_SEEDS": fmt.Sprintf("%d:%d", base+uint64(j.first), j.n)}
 				if j.first == 0 {
 					env["HAPSIM_SAMPLE"] = "1"
@@ -510,9 +571,9 @@ func cmdCheck(args []string) {
 	}
 	wg.Wait()
 	exploreS := time.Since(start).Seconds() - buildS
+	os.Setenv("HAPSIM_AVOID_USED", strings.Join(avoid, ","))
 	sort.Slice(all, func(i, j int) bool { return all[i].Seed < all[j].Seed })
 
-	findings := loadFindings()
 	var viols []*Result
 	for _, r := range all {
 		switch r.Verdict {
@@ -533,9 +594,6 @@ func cmdCheck(args []string) {
 		byClass[c] = append(byClass[c], r)
 	}
 	sort.Strings(classes)
-	exit := 0
-	knownHit := map[string]int{}
-	var reported []map[string]any
 	os.MkdirAll(filepath.Join(verifDir, "replays"), 0755)
 	nMin := 0
 	for _, c := range classes {
@@ -549,7 +607,7 @@ func cmdCheck(args []string) {
 			harnessErrs = append(harnessErrs, fmt.Sprintf("seed %d: violation [%s] did not reproduce from its own tape (got %v): nondeterminism in the harness", r.Seed, v.Class, cv))
 			continue
 		}
-		if nMin < 3 {
+		if nMin < maxMinimise {
 			rf = minimise(binDir, rf, 60*time.Second)
 			nMin++
 		}
@@ -558,8 +616,8 @@ func cmdCheck(args []string) {
 		writeJSON(path, rf)
 		rep := map[string]any{"class": v.Class, "seed": r.Seed, "profile": r.Profile, "count": len(rs), "replay": path, "witness": rf.Violation.Witness}
 		if kf != nil {
-			knownHit[kf.Class+" "+kf.Match] += len(rs)
-			fmt.Printf("KNOWN-FINDING: property=%s %s (class %s, %d run(s), e.g. replay=%s)\n", v.Property, kf.Description, v.Class, len(rs), path)
+			knownHit[kf.ID] += len(rs)
+			fmt.Printf("KNOWN-FINDING: property=%s %s: %s (class %s, %d run(s), e.g. replay=%s)\n", v.Property, kf.ID, kf.Description, v.Class, len(rs), path)
 			rep["known_finding"] = kf.Description
 		} else {
 			fmt.Printf("VIOLATION property=%s replay=%s\n", v.Property, path)
@@ -940,6 +998,7 @@ func writeEvidence(prop, tier string, seed, base uint64, all []*Result, reported
 			"instrumentation_sites": instr,
 			"reported":              reported,
 			"known_findings_hit":    knownHit,
+			"avoid_constraints":     os.Getenv("HAPSIM_AVOID_USED"),
 			"build_s":               buildS,
 			"explore_s":             exploreS,
 		},
